@@ -179,11 +179,15 @@ def exotic(term, env, codec, _seen=None):
                 _seen.add(t.name)
                 out |= exotic(env[t.name], env, codec, _seen)
         elif isinstance(t, Cho):
-            if t.ext:
-                out.add('cho-adds' if t.adds else 'cho-ext')
+            if t.adds:
+                out.add('cho-adds')
+            elif t.ext and codec == 'uper':
+                out.add('cho-ext')
         elif isinstance(t, Seq):
             if t.adds and codec == 'uper':
                 out.add('seq-adds')
+            if t.ext and not t.adds and codec == 'oer':
+                out.add('seq-marker')
             if t.root2:
                 out.add('seq-root2')
             if t.is_set:
@@ -712,6 +716,7 @@ class Mode:
         self.values, self.sweep, self.v2, self.inputs, self.edits = values, sweep, v2, inputs, edits
         self.only = only          # replay a single type of the unit
         self.named_bits = False
+        self.compile_only = False
 
 
 def work(cfg, unit, mode=None, sanitize=True):
@@ -842,6 +847,8 @@ def _work_sub(cfg, unit, run, accepted, parsed, compiled, mode, gen=None):
             return
     res.count('modules_compiled')
     res.count('types_compiled', len(good))
+    if mode.compile_only:
+        return
     # 4. sanitized driver
     try:
         hdr = cheader.parse_header(gen[0])
@@ -933,6 +940,10 @@ def check_type(tc, mode):
 def mode_for(failure, v, only=None):
     kind = failure['kind']
     inp = failure.get('input')
+    if kind == 'c-compile-error':
+        m = Mode(values=[], sweep=False, v2=False, only=only)
+        m.compile_only = True
+        return m
     if kind == 'named-bit-constant':
         m = Mode(values=[], sweep=False, v2=False, only=only)
         m.named_bits = True
@@ -1085,7 +1096,7 @@ def shrink(cfg, failure):
         except Exception:
             pass
         return out
-    if failure.get('layer') == 'L0' or failure['kind'] in ('c-compile-error',):
+    if failure.get('layer') == 'L0':
         out = dict(failure)
         out['spec'] = unit.spec
         out['type'] = name
